@@ -399,6 +399,42 @@ func vC19Choices(minDep int64) []vC19Choice {
 	return cs
 }
 
+func vC19OffsetCases() []vC19Choice {
+	two64 := new(big.Int).Lsh(big.NewInt(1), 64)
+	type kind struct {
+		name       string
+		v0, target *big.Int
+		set        func(r *dtypes.Resource, v *big.Int)
+	}
+	kinds := []kind{
+		{"cpu", big.NewInt(100), big.NewInt(1000), func(r *dtypes.Resource, v *big.Int) { r.Resources.CPU = &types.CPU{Units: vRV(v)} }},
+		{"memory", new(big.Int).Mul(big.NewInt(64), vMi), new(big.Int).Mul(big.NewInt(256), vMi), func(r *dtypes.Resource, v *big.Int) { r.Resources.Memory = &types.Memory{Quantity: vRV(v)} }},
+		{"storage", new(big.Int).Mul(big.NewInt(64), vMi), new(big.Int).Mul(big.NewInt(1024), vMi), func(r *dtypes.Resource, v *big.Int) {
+			r.Resources.Storage = &types.Storage{Quantity: vRV(v)}
+		}},
+	}
+	var out []vC19Choice
+	for _, k := range kinds {
+		kk := k
+		xs := map[string]*big.Int{
+			"negative":            new(big.Int).Neg(kk.v0),
+			"above-2^64":          new(big.Int).Add(two64, kk.v0),
+			"negative-below-2^64": new(big.Int).Neg(new(big.Int).Add(two64, kk.v0)),
+		}
+		for _, xn := range []string{"negative", "above-2^64", "negative-below-2^64"} {
+			x := xs[xn]
+			out = append(out, vC19Choice{fmt.Sprintf("offset %s unit %s, sibling restores the total", kk.name, xn), func(m *dtypes.MsgCreateDeployment) {
+				y := new(big.Int).Sub(kk.target, x)
+				kk.set(&m.Groups[1].Resources[0], x)
+				kk.set(&m.Groups[1].Resources[1], y)
+				m.Groups[1].Resources[0].Count = 1
+				m.Groups[1].Resources[1].Count = 1
+			}})
+		}
+	}
+	return out
+}
+
 func vC19NameArrangements() []vC19Choice {
 	alphabet := []string{"west", "east", "north"}
 	var out []vC19Choice
@@ -449,7 +485,13 @@ func vC19Sweep(t *testing.T, res *vs.Result) {
 		jobs = append(jobs, job{len(choices) - 1, -1})
 	}
 	res.Extra("group_name_arrangements", "all 117 sequences of 2..4 group names over a 3-name alphabet")
-	res.Extra("boundary_sweep", fmt.Sprintf("%d single boundary choices and all %d unordered pairs applied to one valid base message, each through ValidateBasic and a signed DeliverTx", len(choices)-117, nPairs))
+	// units outside the per-unit bounds (negative, beyond 2^64) whose siblings
+	// offset them so that the signed group total is an ordinary value
+	for _, c := range vC19OffsetCases() {
+		choices = append(choices, c)
+		jobs = append(jobs, job{len(choices) - 1, -1})
+	}
+	res.Extra("boundary_sweep", fmt.Sprintf("%d single boundary choices and all %d unordered pairs applied to one valid base message, each through ValidateBasic and a signed DeliverTx", len(choices)-117-9, nPairs))
 	shards := 16
 	seed := vs.Seed()
 	vs.Parallel(shards, shards, func(s int) {
@@ -511,7 +553,7 @@ func vC19Sweep(t *testing.T, res *vs.Result) {
 
 func TestVerif_C19(t *testing.T) {
 	res := vs.NewResult("C19", "exploration",
-		"(a) boundary sweep: every single choice {min-1,min,max,max+1} of each per-unit bound, group totals at max-1/max/max+1 reached with counts 1/2/50, 0/1/20/21 units, 0/1/20/21/40 groups, duplicate/empty names, all 117 arrangements of 2..4 group names over a 3-name alphabet, nil and >2^64 and negative resource values, price and deposit variations, version lengths, and all unordered pairs of two choices, each as a signed create-deployment through ValidateBasic and DeliverTx; alarm when admitted although the big-integer limits table says no, or when a rejection leaves any effect; (b) after every tx of random full-application histories every stored deployment/group must satisfy the table. distinct = (admitted?, set of violated limits)")
+		"(a) boundary sweep: every single choice {min-1,min,max,max+1} of each per-unit bound, group totals at max-1/max/max+1 reached with counts 1/2/50, 0/1/20/21 units, 0/1/20/21/40 groups, duplicate/empty names, all 117 arrangements of 2..4 group names over a 3-name alphabet, out-of-range units (negative, beyond 2^64) offset by a sibling unit, nil and >2^64 and negative resource values, price and deposit variations, version lengths, and all unordered pairs of two choices, each as a signed create-deployment through ValidateBasic and DeliverTx; alarm when admitted although the big-integer limits table says no, or when a rejection leaves any effect; (b) after every tx of random full-application histories every stored deployment/group must satisfy the table. distinct = (admitted?, set of violated limits)")
 	res.Assume("limits transcribed from the documented constants (cpu 10..10000 milli, memory 1Mi..16Gi, storage 5Mi..1Ti, count 1..50, unit price 1..10^7 uakt, <=20 units/group, <=20 groups, totals cpu<=20000, memory<=32Gi, storage<=1Ti, 32-byte version, deposit >= DeploymentMinDeposit)")
 	for _, f := range []string{"admitted", "rejected_beyond_limits", "stored_groups_checked", "stored_deployments_checked", "rejected:unit-cpu", "rejected:unit-memory", "rejected:unit-storage", "rejected:unit-count", "rejected:unit-price", "rejected:price-denom",
 		"rejected:group-total-cpu", "rejected:group-total-memory", "rejected:group-total-storage", "rejected:units>max", "rejected:groups>max", "rejected:groups<1", "rejected:group-name-duplicate", "rejected:group-name-empty", "rejected:version-length", "rejected:deposit"} {
